@@ -104,6 +104,10 @@ func Prefix2bin128(prefix netip.Prefix) (bin128 string) {
 	if prefix.Addr().Is4() {
 		n += 96
 	}
+	if n == 0 {
+		// ::/0: the empty bit string is a prefix of every address.
+		return ""
+	}
 	ip := prefix.Addr().As16()
 	buf := pool.GetBuffer()
 	defer pool.PutBuffer(buf)
